@@ -121,6 +121,86 @@ def check_calls_in(repo, rep, func, where, local_defs=None):
     return n_checked
 
 
+def _expand_ref_decision(ex):
+    """Compare the decision table of CellRange.expand_ref with the confirmed one over all truth assignments."""
+    import itertools
+
+    from ..symexec import body_paths, bool_atoms, bool_eval
+    ATOMS = {"no_prefix": "A", "is_document_unique": "B", "self.from_table_id==self.to_table_id": "C", "self.from_sheet_id==self.to_sheet_id": "D",
+             "is_sheet_unique": "E", "is_table_unique": "F", "is_abs": "G"}
+
+    def canon(a):
+        t = a.replace(" ", "")
+        if t == "self.to_table_id==self.from_table_id":
+            t = "self.from_table_id==self.to_table_id"
+        if t == "self.to_sheet_id==self.from_sheet_id":
+            t = "self.from_sheet_id==self.to_sheet_id"
+        return t
+
+    def kind(e, asg):
+        if isinstance(e, ast.IfExp):
+            r = bool_eval(e.test, asg)
+            if r is None:
+                return "?"
+            return kind(e.body if r else e.orelse, asg)
+        if isinstance(e, ast.Name) and e.id == "ref_str":
+            return "P"
+        if isinstance(e, ast.JoinedStr):
+            names = [U(v.value) for v in e.values if isinstance(v, ast.FormattedValue)]
+            lits = "".join(v.value for v in e.values if isinstance(v, ast.Constant))
+            if names == ["table_name", "ref_str"] and lits == "::":
+                return "T"
+            if names == ["sheet_name", "table_name", "ref_str"] and lits == "::::":
+                return "S"
+        return "?"
+
+    # the table uniqueness flag is widened by the name table before the last decisions
+    widened = any(isinstance(n, ast.AugAssign) and U(n.target) == "is_table_unique" and isinstance(n.op, ast.BitOr) and "table_name_unique[table_name]" in U(n.value) for n in body_walk(ex)) \
+        or any(isinstance(n, ast.Assign) and U(n.targets[0]) == "is_table_unique" and "table_name_unique[table_name]" in U(n.value) and "is_table_unique" in U(n.value) for n in body_walk(ex))
+    tn = [n for n in body_walk(ex) if isinstance(n, ast.Assign) and U(n.targets[0]) == "table_name"]
+    sn = [n for n in body_walk(ex) if isinstance(n, ast.Assign) and U(n.targets[0]) == "sheet_name"]
+    if not (widened and tn and sn and U(tn[0].value).replace(" ", "") == "self.model.table_name(self.to_table_id)" and U(sn[0].value).replace(" ", "") == "self.model.sheet_name(self.to_sheet_id)"):
+        return False, "table/sheet names are not those of the target table, or the table uniqueness flag is not widened by table_name_unique"
+    try:
+        paths = [(c, st, e) for c, st, e in body_paths(ex.body) if e == "return"]
+    except ValueError as e:
+        raise AnalysisError(f"expand_ref: {e}") from e
+    used = set()
+    for c, _st, _e in paths:
+        for t, _o in c:
+            used |= {canon(a) for a in bool_atoms(t)}
+    # tests on the text being printed (quoting) do not take part in the prefix decision
+    free = sorted(a for a in used if a not in ATOMS)
+    names = sorted(ATOMS)
+    for vals in itertools.product([False, True], repeat=len(names)):
+        asg0 = dict(zip(names, vals))
+        A, B, C, D, E, F, G = (asg0[k] for k in ("no_prefix", "is_document_unique", "self.from_table_id==self.to_table_id", "self.from_sheet_id==self.to_sheet_id",
+                                                     "is_sheet_unique", "is_table_unique", "is_abs"))
+        want = "P" if (A or B or C) else (("T" if G else "P") if (D and E) else ("T" if (D or F) else "S"))
+        for fvals in itertools.product([False, True], repeat=min(len(free), 3)):
+            asg = dict(asg0)
+            asg.update(zip(free, fvals))
+            # atoms are looked up by their canonical text
+            class _A(dict):
+                def get(self, k, d=None):
+                    return dict.get(self, canon(k), d)
+
+                def __contains__(self, k):
+                    return dict.__contains__(self, canon(k))
+
+                def __getitem__(self, k):
+                    return dict.__getitem__(self, canon(k))
+            asg = _A(asg)
+            got = None
+            for c, steps, _e in paths:
+                if all(bool_eval(t, asg) == o for t, o in c):
+                    got = kind(steps[-1].value, asg)
+                    break
+            if got != want:
+                return False, f"with {dict(asg0)} the reference is printed as {got} (P=plain, T=table::, S=sheet::table::) instead of {want}"
+    return True, ""
+
+
 def run(repo, rep, tier):
     ntr = repo.func("model.py", "_NumbersModel.node_to_ref")
     inner = {n.name: n for n in ntr.body if isinstance(n, ast.FunctionDef)}
@@ -219,7 +299,8 @@ def run(repo, rep, tier):
         for j in joins:
             elts = j.args[0].elts if j.args and isinstance(j.args[0], (ast.List, ast.Tuple)) else []
             if len(elts) == 2:
-                first, second = elts
+                from ..symexec import _unwrap_alias
+                first, second = (_unwrap_alias(fn, e) for e in elts)
                 np2 = any(kw.arg == "no_prefix" and try_const(kw.value) is True for kw in getattr(second, "keywords", []))
                 _, e1, _ = expr_tags(first)
                 _, e2, _ = expr_tags(second)
@@ -227,8 +308,11 @@ def run(repo, rep, tier):
                 rep.ob("C09.R3", j, f"CellRange.{fn.name}: `begin:end` order, end point without prefix", ok,
                        "" if ok else "range end-points are swapped or the second one is qualified again", key=f"C09.R3@{fn.name}:span")
     xr = repo.func("xrefs.py", "xl_rowcol_to_cell")
-    s = U(xr).replace(" ", "")
-    ok = "row+=1" in s and "row_abs='$'ifrow_abselse''" in s and "col_str=xl_col_to_name(col,col_abs)" in s and "returncol_str+row_abs+str(row)" in s
+    from ..symexec import Straight
+    slx = Straight(xr)
+    rets_x = [n for n in body_walk(xr) if isinstance(n, ast.Return) and n.value is not None]
+    final = U(slx.at(rets_x[-1], rets_x[-1].value)).replace(" ", "") if rets_x else ""
+    ok = final in ("xl_col_to_name(col,col_abs)+('$'ifrow_abselse'')+str(row+1)", "xl_col_to_name(col,col_abs)+(\"$\"ifrow_abselse\"\")+str(row+1)")
     rep.ob("C09.R3", xr, "xl_rowcol_to_cell: column letters, then the row '$', then the 1-based row", ok, "", key="C09.R3@xl_rowcol_to_cell")
     xc = repo.func("xrefs.py", "xl_col_to_name")
     s = U(xc).replace(" ", "")
@@ -286,13 +370,11 @@ def run(repo, rep, tier):
     s = U(ex)
     ok = "self.model.name_ref_cache.refresh()" in s
     rep.ob("C09.R4", ex, "expand_ref refreshes the name cache before deciding the prefix", ok, "", key="C09.R4@expand_ref:refresh")
-    # prefix selection structure (no verdict on unambiguity, only on the shape of the decision)
-    s2 = s.replace(" ", "").replace("\n", "")
-    ok = "ifself.from_table_id==self.to_table_id:returnref_str" in s2 and "table_name=self.model.table_name(self.to_table_id)" in s2 \
-        and "sheet_name=self.model.sheet_name(self.to_sheet_id)" in s2 and "returnf'{sheet_name}::{table_name}::{ref_str}'" in s2 \
-        and "is_table_unique|=self.table_name_unique[table_name]" in s2 and "ifself.from_sheet_id==self.to_sheet_idoris_table_unique:returnf'{table_name}::{ref_str}'" in s2
+    # prefix selection: the decision table of expand_ref (which qualification is returned under which facts), read from
+    # the paths of the function, equals the confirmed table
+    ok, detail = _expand_ref_decision(ex)
     rep.ob("C09.R4", ex, "expand_ref qualifies with the *target* table/sheet names: none (same table), table, or sheet::table", ok,
-           "" if ok else "prefix decision altered", key="C09.R4@expand_ref:prefix")
+           "" if ok else detail, key="C09.R4@expand_ref:prefix")
     # the absolute marker belongs to the name: it is added before the name is quoted ('$10%', never $'10%')
     from ..symexec import Straight
     sl_ = Straight(ex)
